@@ -27,6 +27,10 @@ type c03Case struct {
 	Binds  []c03Bind `json:"binds"`
 	Chunks []string  `json:"chunks"` // typed bytes, as delivered
 	Kinds  string    `json:"kinds"`  // segment kinds, for coverage
+	// Warm: the Shell has already dispatched keys with another table in this keymap (a first
+	// call); the table under test is then put in place through the API (Config.Bind and
+	// deletions from Config.Binds), as an application changing binds between calls does
+	Warm bool `json:"warm,omitempty"`
 }
 
 var c03Alpha = []string{"a", "b", "c", "[", "\x1b", "\x18", "\x01", "ä"}
@@ -160,6 +164,7 @@ func c03Gen(r *rand.Rand, tier string, idx int) any {
 		}
 	}
 	c.Kinds = strings.Join(kinds, "")
+	c.Warm = r.Intn(4) == 0
 	return c
 }
 
@@ -346,6 +351,13 @@ func c03Run(env *fw.Env, raw json.RawMessage) fw.Outcome {
 			delete(km, k)
 		}
 		for i, b := range c.Binds {
+			if c.Warm {
+				// the earlier table: every other bind of the final one, the others one key longer
+				if i%2 == 1 {
+					sh.Config.Bind(c.Keymap, b.Seq+"z", fmt.Sprintf("probe-%d", i), false)
+					continue
+				}
+			}
 			if b.Macro != "" {
 				sh.Config.Bind(c.Keymap, b.Seq, c03Typed(b.Macro), true)
 			} else {
@@ -357,6 +369,29 @@ func c03Run(env *fw.Env, raw json.RawMessage) fw.Outcome {
 	}
 	s := sess.New(env.T, env.Scratch, cfg)
 	defer s.Close()
+	if c.Warm {
+		first := s.Call(steps("\r"), steps("\r", "\r", "\r"))
+		if !stdFailures(&o, first, "warm-up call") || !first.Returned {
+			o.Inc("the warm-up call did not return")
+			return o.O
+		}
+		got, callers = nil, nil
+		sh := s.Sh
+		km := sh.Config.Binds[c.Keymap]
+		for k := range km {
+			delete(km, k)
+		}
+		for i, b := range c.Binds {
+			if b.Macro != "" {
+				sh.Config.Bind(c.Keymap, b.Seq, c03Typed(b.Macro), true)
+			} else {
+				sh.Config.Bind(c.Keymap, b.Seq, fmt.Sprintf("probe-%d", i), false)
+			}
+		}
+		sh.Config.Bind(c.Keymap, "\r", "accept-line", false)
+		sh.Keymap.SetMain(c.Keymap)
+		o.Add("tables_put_in_place_through_the_API_after_a_first_call", 1)
+	}
 	res := s.Call(steps(c.Chunks...), steps("\r", "\r", "\r", "\r"))
 	want, amb, overtake := c03ModelX(c.Binds, c.Chunks, c.Keymap != "emacs")
 	o.O.Events = len(got) + len(res.Waits)
